@@ -261,3 +261,10 @@ pub struct Cfg {
     pub p1: u32,
     pub p2: u32,
 }
+
+impl Ev {
+    /// events that hand the library crafted (mutated, possibly re-checksummed) bytes or strings
+    pub fn is_byzantine(&self) -> bool {
+        matches!(self, Ev::DeliverCorrupt { .. } | Ev::RecvCorrupt { .. } | Ev::CrashCorrupt { .. } | Ev::IdFuzz { .. })
+    }
+}
